@@ -524,7 +524,7 @@ func init() {
 		k.Clients[1].RedirectURIs = append(k.Clients[1].RedirectURIs, "https://app-b.sim/other")
 	})
 	// C03: PKCE attempt sequences under every enforcement configuration
-	hist("c03", "C03", mix{authz: 16, hybrid: 6, redeem: 40, redeemBad: 4, advance: 3, introspect: 1, pkce: 65, pkceBad: 60}, 8, 28, func(t *Tape, k *Knobs) {
+	hist("c03", "C03", mix{authz: 16, hybrid: 6, redeem: 40, redeemBad: 4, advance: 3, introspect: 1, par: 7, pkce: 65, pkceBad: 60}, 8, 28, func(t *Tape, k *Knobs) {
 		k.EnforcePKCE = t.Chance(25)
 		k.EnforcePKCEPublic = t.Chance(35)
 		k.PKCEPlain = t.Chance(50)
